@@ -54,7 +54,7 @@ def eval_case(hist, rec):
 
 def strategy():
     return histgen.histories(KINDS, max_ops=30, n_variants=(2, 4),
-                             gen_kw=dict(max_modules=3, max_tasks=3, kinds=gen.KINDS_ALL))
+                             gen_kw=dict(max_modules=3, max_tasks=3, kinds=gen.KINDS_ALL), name_mode=True)
 
 
 def plan(tier):
